@@ -89,3 +89,21 @@ Theorem C06_checker_output_independent_of_map_order : forall intern P Q f f' A B
   check_program intern f P = COk A -> check_program intern f' Q = COk B -> A = B.
 Proof. exact check_perm_export_final. Qed.
 Print Assumptions C06_checker_output_independent_of_map_order.
+
+(* ... and ACCEPTANCE with calls, for programs whose call depth is at most 1 (every function calls
+   nothing, or calls only functions that call nothing; [call_depth_le_1], a Boolean) -
+   Check/InferPerm3.v, InferPerm4.v: if one order of the three maps is accepted with fuel f, every
+   other order is accepted with fuel 2 * f and exports the SAME typed program.  (Arbitrary call
+   depth: acceptance equivalence is not proved; equality of the outputs when both are accepted is
+   C06_checker_output_independent_of_map_order above.) *)
+From GV Require Import Check.InferPerm4.
+
+Theorem C06_checker_verdict_and_output_independent_of_map_order_depth1 : forall intern P Q f A,
+  (forall a b, intern a = intern b -> a = b) ->
+  up_consts Q = up_consts P -> up_main Q = up_main P ->
+  Permutation (up_fns P) (up_fns Q) -> Permutation (up_structs P) (up_structs Q) -> Permutation (up_enums P) (up_enums Q) ->
+  NoDup (map uf_name (up_fns P)) -> NoDup (map us_name (up_structs P)) -> NoDup (map ue_name (up_enums P)) ->
+  call_depth_le_1 P = true ->
+  check_program intern f P = COk A -> check_program intern (2 * f) Q = COk A.
+Proof. exact check_perm_depth1. Qed.
+Print Assumptions C06_checker_verdict_and_output_independent_of_map_order_depth1.
